@@ -494,7 +494,7 @@ def mat_entries(sc):
 
 def cli(sc, driver, names, root, workers=None):
     argv = [b"--driver", driver.encode()]
-    if workers:
+    if workers is not None:
         argv += [b"--workers", str(workers).encode()]
     if sc["r"]: argv.append(b"-r")
     if sc["T"]: argv.append(b"-T")
